@@ -20,50 +20,52 @@ Section Resolvable.
   (* (A premise "the referenced units exists and is satisfiable" is written as two premises, existence and
      "whatever is found is satisfiable", so that the generated induction principles carry the hypothesis.) *)
 
-  (* [RU cm u]: the units [u] of model [cm] can be satisfied: an import finds its file, the file is a CellML
+  (* [RU o cm u]: the units [u] of model [cm] (owned by [o]: its URLs are relative to the file of [o]) can be satisfied: an import finds its file, the file is a CellML
      model holding the referenced units, and that units can be satisfied in turn; a local units needs every
      units it references (other than the standard ones) to exist in its model and to be satisfiable.
      The definition is inductive: an entity that depends on itself has no derivation. *)
-  Inductive RU : model -> units -> Prop :=
-  | RU_imp : forall cm n sid url ref sm su,
-      fs_model fs (mk_key url) = Some sm ->
+  Inductive RU : owner -> model -> units -> Prop :=
+  | RU_imp : forall o cm n sid url ref sm su,
+      fs_model fs (key_of o url) = Some sm ->
       find_units (m_units sm) ref = Some su ->
-      RU sm su ->
-      RU cm (UImp n sid url ref)
-  | RU_local : forall cm n refs,
+      RU (Some (key_of o url)) sm su ->
+      RU o cm (UImp n sid url ref)
+  | RU_local : forall o cm n refs,
       (forall r, In r refs -> is_std r = false -> find_units (m_units cm) r <> None) ->
-      (forall r cu, In r refs -> is_std r = false -> find_units (m_units cm) r = Some cu -> RU cm cu) ->
-      RU cm (ULocal n refs).
+      (forall r cu, In r refs -> is_std r = false -> find_units (m_units cm) r = Some cu -> RU o cm cu) ->
+      RU o cm (ULocal n refs).
 
-  (* [RC cm c]: the component [c] of model [cm] can be satisfied: its import (if any) finds file and component,
-     which can be satisfied; the units of its variables exist and can be satisfied; so can its children. *)
-  Inductive RC : model -> comp -> Prop :=
-  | RC_local : forall cm n used kids,
+  (* [RC o cm c]: the component [c] of model [cm] (owned by [o]: URLs are relative to its file) can be satisfied: its
+     import (if any) finds file and component, which can be satisfied; the units of its variables exist and can be
+     satisfied; so can its children. *)
+  Inductive RC : owner -> model -> comp -> Prop :=
+  | RC_local : forall o cm n used kids,
       (forall un, In un used -> is_std un = false -> find_units (m_units cm) un <> None) ->
-      (forall un su, In un used -> is_std un = false -> find_units (m_units cm) un = Some su -> RU cm su) ->
-      (forall k, In k kids -> RC cm k) ->
-      RC cm (Comp n None used kids)
-  | RC_imp : forall cm n sid url ref used kids sm sc,
-      fs_model fs (mk_key url) = Some sm ->
+      (forall un su, In un used -> is_std un = false -> find_units (m_units cm) un = Some su -> RU o cm su) ->
+      (forall k, In k kids -> RC o cm k) ->
+      RC o cm (Comp n None used kids)
+  | RC_imp : forall o cm n sid url ref used kids sm sc,
+      fs_model fs (key_of o url) = Some sm ->
       find_comp (m_comps sm) ref = Some sc ->
-      RC sm sc ->
+      RC (Some (key_of o url)) sm sc ->
       (forall un, In un used -> is_std un = false -> find_units (m_units cm) un <> None) ->
-      (forall un su, In un used -> is_std un = false -> find_units (m_units cm) un = Some su -> RU cm su) ->
-      (forall k, In k kids -> RC cm k) ->
-      RC cm (Comp n (Some (sid, url, ref)) used kids).
+      (forall un su, In un used -> is_std un = false -> find_units (m_units cm) un = Some su -> RU o cm su) ->
+      (forall k, In k kids -> RC o cm k) ->
+      RC o cm (Comp n (Some (sid, url, ref)) used kids).
 
   (* the import of an imported component alone (its children in the importing model are looked at separately) *)
-  Definition RCimport (c : comp) : Prop :=
+  Definition RCimport (o : owner) (c : comp) : Prop :=
     match c with
     | Comp _ (Some (_, url, ref)) _ _ =>
-      exists sm sc, fs_model fs (mk_key url) = Some sm /\ find_comp (m_comps sm) ref = Some sc /\ RC sm sc
+      exists sm sc, fs_model fs (key_of o url) = Some sm /\ find_comp (m_comps sm) ref = Some sc /\
+                    RC (Some (key_of o url)) sm sc
     | Comp _ None _ _ => True
     end.
 
   (* every transitive import of the model given to resolveImports can be satisfied *)
   Definition Resolvable (m0 : model) : Prop :=
-    (forall u, In u (imported_units m0) -> RU m0 u) /\
-    (forall c, In c (imported_comps m0) -> RCimport c).
+    (forall u, In u (imported_units m0) -> RU None m0 u) /\
+    (forall c, In c (imported_comps m0) -> RCimport None c).
 End Resolvable.
 
 (* ------------------------------------------------------------------------------------------ what the code demands *)
@@ -90,13 +92,13 @@ Section CodeSpec.
   Inductive FU : owner -> list epoch -> units -> Prop :=
   | FU_local : forall o hist n refs, FU o hist (ULocal n refs)
   | FU_imp : forall o hist n sid url ref sm su,
-      fs_model fs (mk_key url) = Some sm ->
+      fs_model fs (key_of o url) = Some sm ->
       cycs fs m0 hist (fetch_epoch o url) = false ->
       find_units (m_units sm) ref = Some su ->
-      FU (Some (mk_key url)) (hist ++ [fetch_epoch o url]) su ->
+      FU (Some (key_of o url)) (hist ++ [fetch_epoch o url]) su ->
       (forall r, In r (refs_of su) -> is_std r = false -> find_units (m_units sm) r <> None) ->
       (forall r cu, In r (refs_of su) -> is_std r = false -> find_units (m_units sm) r = Some cu ->
-                    FU (Some (mk_key url)) (hist ++ [fetch_epoch o url]) cu) ->
+                    FU (Some (key_of o url)) (hist ++ [fetch_epoch o url]) cu) ->
       FU o hist (UImp n sid url ref).
 
   (* [FC o hist c]: ImporterImpl::fetchComponent(c) answers true *)
@@ -105,14 +107,14 @@ Section CodeSpec.
   | FC_local : forall o hist n used kids,
       (forall k, In k kids -> FC o hist k) -> FC o hist (Comp n None used kids)
   | FC_imp : forall o hist n sid url ref used kids sm sc,
-      fs_model fs (mk_key url) = Some sm ->
+      fs_model fs (key_of o url) = Some sm ->
       cycs fs m0 hist (fetch_epoch o url) = false ->
       find_comp (m_comps sm) ref = Some sc ->
-      FC (Some (mk_key url)) (hist ++ [fetch_epoch o url]) sc ->
-      (forall k, In k (ckids sc) -> FC (Some (mk_key url)) (hist ++ [fetch_epoch o url]) k) ->
+      FC (Some (key_of o url)) (hist ++ [fetch_epoch o url]) sc ->
+      (forall k, In k (ckids sc) -> FC (Some (key_of o url)) (hist ++ [fetch_epoch o url]) k) ->
       (forall un, In un (cused sc) -> is_std un = false -> find_units (m_units sm) un <> None) ->
       (forall un su, In un (cused sc) -> is_std un = false -> find_units (m_units sm) un = Some su ->
-                     FU (Some (mk_key url)) (hist ++ [fetch_epoch o url]) su) ->
+                     FU (Some (key_of o url)) (hist ++ [fetch_epoch o url]) su) ->
       FC o hist (Comp n (Some (sid, url, ref)) used kids).
 
   (* what resolveImports(m0) on a fresh importer demands *)
@@ -166,7 +168,10 @@ Definition import_urls (m : model) : list string :=
    that Model::equals the model being resolved (the second disjunct of checkForImportCycles) *)
 Definition AcyclicFiles (fs : fsys) : Prop :=
   exists rank : string -> nat,
-    forall k sm url, fs_model fs k = Some sm -> In url (import_urls sm) -> rank (mk_key url) < rank k.
+    forall k sm url, fs_model fs k = Some sm -> In url (import_urls sm) -> rank (key_of (Some k) url) < rank k.
+
+(* no file is stored under the marker ":this:" that the history uses for the origin model *)
+Definition KeysOK (fs : fsys) : Prop := forall k sm, fs_model fs k = Some sm -> k <> origin_ref.
 
 Definition NoTwin (fs : fsys) (m0 : model) : Prop :=
   forall k sm, fs_model fs k = Some sm -> model_equals m0 sm = false.
@@ -182,11 +187,11 @@ Definition NoSelfDependence (st : state) (m0 : model) (urank crank : owner -> st
      find_units (m_units cm) r = Some cu -> urank o (uname cu) < urank o n) /\
   (forall o cm n sid url ref sm iu, content st m0 o = Some cm -> In (UImp n sid url ref) (m_units cm) ->
      linked_model st o sid url = Some sm -> find_units (m_units sm) ref = Some iu ->
-     urank (Some (mk_key url)) (uname iu) < urank o n) /\
+     urank (Some (key_of o url)) (uname iu) < urank o n) /\
   (forall o cm n sid url ref used kids sm ic, content st m0 o = Some cm ->
      In (Comp n (Some (sid, url, ref)) used kids) (all_comps cm) ->
      linked_model st o sid url = Some sm -> find_comp (m_comps sm) ref = Some ic ->
-     crank (Some (mk_key url)) (cname ic) < crank o n) /\
+     crank (Some (key_of o url)) (cname ic) < crank o n) /\
   (forall o cm c k, content st m0 o = Some cm -> In c (all_comps cm) -> In k (ckids c) ->
      crank o (cname k) <= crank o (cname c)).
 
@@ -204,7 +209,7 @@ Section Resolved.
   | TU_imp : forall o cm n sid url ref sm iu,
       linked_model st o sid url = Some sm ->
       find_units (m_units sm) ref = Some iu ->
-      TU (Some (mk_key url)) sm iu ->
+      TU (Some (key_of o url)) sm iu ->
       TU o cm (UImp n sid url ref).
 
   (* the units used by the variables of a component and of all its descendants: leaves, or resolved imports *)
@@ -218,7 +223,7 @@ Section Resolved.
   | TC_imp : forall o cm n sid url ref used kids sm ic,
       linked_model st o sid url = Some sm ->
       find_comp (m_comps sm) ref = Some ic ->
-      TC (Some (mk_key url)) sm ic ->
+      TC (Some (key_of o url)) sm ic ->
       TC o cm (Comp n (Some (sid, url, ref)) used kids)
   | TC_local : forall o cm n used kids,
       UsedOK o cm (Comp n None used kids) ->
